@@ -7,7 +7,7 @@ ENV = {"run", "stop", "dial", "close", "send", "release", "panic", "stopreading"
 
 BASE = {"Conns": '{"c1", "c2"}', "MaxReq": "2", "Stoppers": '{"s1"}', "FrameKinds": '{"op", "unbind", "bad"}', "DoneLast": "TRUE",
         "RegisterLocked": "TRUE", "CloseOnCtx": "TRUE", "WakeOnCancel": "TRUE", "HandlerRecover": "TRUE",
-        "ReadyOnlyIfListening": "TRUE", "ListenFails": "FALSE", "AcceptErrorsFatal": "FALSE"}
+        "ReadyOnlyIfListening": "TRUE", "ListenFails": "FALSE", "AcceptErrorsFatal": "FALSE", "TLSMode": '"none"'}
 
 
 def cfg(consts, body):
@@ -39,6 +39,20 @@ def variant_must_fail(run, consts, flip, invariants, properties=None):
     return bool(r.violations)
 
 
+def unsyncable(b):
+    """a frame sent, after Stop has been called, to a client that does not read: the harness cannot see the notice of
+    disconnection there, so it cannot know whether the read loop is already gone when it sends (a legitimate race)"""
+    stopped, deaf = False, set()
+    for e in b:
+        if e["a"] == "stop":
+            stopped = True
+        elif e["a"] == "stopreading":
+            deaf.add(e["c"])
+        elif e["a"] == "send" and stopped and e["c"] in deaf:
+            return True
+    return False
+
+
 def behaviours(run, consts, depth, allow_panic=False, extra_inv="", cap=None, must_contain=None):
     """TLC explores Scen.tla; returns behaviours deduplicated by their environment-action sequence"""
     c = dict(consts)
@@ -46,6 +60,7 @@ def behaviours(run, consts, depth, allow_panic=False, extra_inv="", cap=None, mu
     c["AllowPanic"] = "TRUE" if allow_panic else "FALSE"
     c.setdefault("AllowStopReading", "FALSE")
     c.setdefault("AllowAcceptFault", "FALSE")
+    c.setdefault("AllowSilent", "FALSE")
     body = "SPECIFICATION SSpec\nINVARIANTS Emit %s\nCHECK_DEADLOCK FALSE\n" % extra_inv
     res = run.tlc("Scen", cfg(c, body), workers=8, timeout=3000)
     if res.violations:
@@ -60,6 +75,8 @@ def behaviours(run, consts, depth, allow_panic=False, extra_inv="", cap=None, mu
             continue
         seen.add(key)
         if must_contain and not must_contain(b):
+            continue
+        if unsyncable(b):
             continue
         out.append(b)
     rnd = random.Random(run.seed)
@@ -87,8 +104,9 @@ def replay(run, scenarios, par=8, race=False, timeout=3000):
     return vlib.read_ndjson(trace), trace
 
 
-ALL_INV = ["OrderMonitors", "NotStuck"] + ["Missing_" + k for k in ("hstart", "hend", "hunbind", "eof", "onclose", "stopret", "runret", "ready")] + \
-          ["Extra_" + k for k in ("hstart", "hend", "hunbind", "eof", "onclose", "stopret", "runret", "ready")]
+ALL_INV = ["OrderMonitors", "NotStuck", "EveryWriteArrives"] + ["Missing_" + k for k in ("hstart", "hend", "hunbind", "eof", "onclose", "stopret", "runret", "ready")] + \
+          ["Extra_" + k for k in ("hstart", "hend", "hunbind", "eof", "onclose", "stopret", "runret", "ready")] + \
+          ["Late_" + k for k in ("hstart", "hend", "eof", "onclose", "stopret", "runret")]
 
 
 def validate(run, trace, invariants=None, timeout=3000):
@@ -135,6 +153,7 @@ def scripted(run, scripts, consts):
         c.setdefault("AllowPanic", "FALSE")
         c.setdefault("AllowStopReading", "FALSE")
         c.setdefault("AllowAcceptFault", "FALSE")
+        c.setdefault("AllowSilent", "FALSE")
         body = "SPECIFICATION ScriptSpec\nINVARIANTS EmitScript\nCHECK_DEADLOCK FALSE\n"
         res = run.tlc("ScenScript", cfg(c, body), env={"SCRIPT": sf}, workers=1, timeout=900, heap="8g")
         best = None
